@@ -121,7 +121,7 @@ Section History.
     state_ok c P st ->
     answer_ok c P (fst (step_request c st m t k)) /\ state_ok c P (snd (step_request c st m t k)).
   Proof.
-    intros [Hc Hf]. unfold step_request.
+    intros [Hc Hf]. unfold step_request, step_request_with.
     destruct (target_uri t) as [[p q]|]; [|split; [exact I|split; assumption]].
     cbn zeta.
     set (k' := eff_kind t k).
@@ -258,7 +258,7 @@ Lemma unsafe_step_lemma c st m t k p q :
     Forall (fun o => In o (open_name (pc_tree c) (error_path (pc_host c) 400))) opens /\
     (forall f, f <> error_path (pc_host c) 400 -> fc_get f fc' = fc_get f (snd st)).
 Proof.
-  intros Hu U Hf. unfold step_request. rewrite Hu. cbn zeta.
+  intros Hu U Hf. unfold step_request, step_request_with. rewrite Hu. cbn zeta.
   destruct (keys_of (override_of (pc_default_ext c) m (eff_kind t k)) (primed_path (pc_host c) p) q) as [kpq kp].
   set (cached := option_map abstract (cache_lookup (pc_cache c) kpq kp (fst st))).
   set (ov := override_of (pc_default_ext c) m (eff_kind t k)).
@@ -321,7 +321,7 @@ Lemma no_override_strip_lemma c st m t k :
   benign_host (pc_host c) -> override_of (pc_default_ext c) m (eff_kind t k) = None ->
   step_request (strip_internal c) st m t k = step_request c st m t k.
 Proof.
-  intros Bh Ho. unfold step_request. cbn [strip_internal pc_default_ext pc_cache pc_fcache pc_host pc_fs].
+  intros Bh Ho. unfold step_request, step_request_with. cbn [strip_internal pc_default_ext pc_cache pc_fcache pc_host pc_fs].
   rewrite Ho.
   destruct (target_uri t) as [[p q]|]; [|reflexivity].
   cbn zeta. change (primed_path (strip_host (pc_host c)) p) with (primed_path (pc_host c) p).
